@@ -37,32 +37,41 @@ func After[V constraints.Signed](n *V, fn func()) {
 // From the nth call onwards, the memoized result of the last invocation is returned immediately
 // instead of invoking function again. So the wrapper will invoke function at most n-1 times.
 func Before[S ~string, T any, V constraints.Signed](n *V, c *cache.Cache[S, T], fn func() T) T {
-	var memo *cache.Item[T]
 	*n-- // decrease the n as pointer receiver
 	if *n > 0 {
 		return fn()
 	}
-	if *n == 0 {
-		c.Set("func", fn(), cache.DefaultExpiration)
+	// The last allowed invocation is memoized, the subsequent calls are served from the cache.
+	{
+		var c *cache.Cache[S, T] = c
+		_ = c
+		var fn func() T = fn
+		_ = fn
+		if memo, _ := c.Get("func"); memo != nil {
+			return memo.Val()
+		}
+		val := fn()
+		c.Set("func", val, cache.DefaultExpiration)
+		return val
 	}
-	memo, _ = c.Get("func")
-
-	return memo.Val()
 }
 
 // Once is like Before, but it's invoked only once.
 // Repeated calls to the modified function will have no effect
 // and the function invocation is returned from the cache.
 func Once[S ~string, T comparable, V constraints.Signed](c *cache.Cache[S, T], fn func() T) T {
-	memo, _ := c.Get("func")
-	if memo == nil {
+	{
+		var c *cache.Cache[S, T] = c
+		_ = c
+		var fn func() T = fn
+		_ = fn
+		if memo, _ := c.Get("func"); memo != nil {
+			return memo.Val()
+		}
 		val := fn()
 		c.Set("func", val, cache.DefaultExpiration)
 		return val
 	}
-	memo, _ = c.Get("func")
-
-	return memo.Val()
 }
 
 // RType is a generic struct type used as method receiver on retry operations.
@@ -124,13 +133,13 @@ type debouncer struct {
 // It returns a callback function which will be invoked after the predefined delay and
 // also a cancel method which should be invoked to cancel a scheduled debounce.
 func NewDebounce(wait time.Duration) (func(f func()), func()) {
-	db := &debouncer{duration: wait}
+	d := &debouncer{duration: wait}
 	return func(f func()) {
-		db.add(f)
-	}, db.cancel
+		d.add(f)
+	}, d.cancel
 }
 
-// schedule method schedules the execution of the passed in function after a predefined delay.
+// add method schedules the execution of the passed in function after a predefined delay.
 func (d *debouncer) add(f func()) {
 	d.mu.Lock()
 	defer d.mu.Unlock()
@@ -142,7 +151,7 @@ func (d *debouncer) add(f func()) {
 	d.timer = time.AfterFunc(d.duration, f)
 }
 
-// stop cancels the execution of a scheduled debounce function.
+// cancel the execution of a scheduled debounce function.
 func (d *debouncer) cancel() {
 	d.mu.Lock()
 	defer d.mu.Unlock()
